@@ -3,6 +3,7 @@ import TemprenModel.Model.Path
 import TemprenModel.Model.Count
 import TemprenModel.Model.Hash
 import TemprenModel.Model.AdHoc
+import TemprenModel.Model.Registry
 open Tempren Tempren.Proto
 
 def hexNibble (c : Char) : Option Nat :=
@@ -28,6 +29,28 @@ def hexByte (b : UInt8) : String :=
   String.ofList [hexChar (b.toNat / 16), hexChar (b.toNat % 16)]
 
 def encBytes (bs : List UInt8) : String := "h" ++ String.join (bs.map hexByte)
+
+/-- registry: `l` + categories joined by `,`; a category is `<name>/<tag>+<tag>…` -/
+def decReg (f : String) : Option Reg := do
+  let items ← decList f
+  items.foldr (fun it acc => do
+    let a ← acc
+    match it.splitOn "/" with
+    | [n, ts] =>
+      let name ← decStr n
+      let tags ← (if ts = "" then some [] else
+        (ts.splitOn "+").foldr (fun t acc2 => do
+          let a2 ← acc2
+          let s ← decStr t
+          pure (s :: a2)) (some []))
+      pure ((name, tags) :: a)
+    | _ => none) (some [])
+
+def encLookup : Lookup → String
+  | .found c t => "found " ++ encStr c ++ " " ++ encStr t
+  | .unknownCategory => "unknownCategory"
+  | .unknownName => "unknownName"
+  | .ambiguous cs => "ambiguous " ++ encStrList cs
 
 def encCountVal : Option CountVal → String
   | none => "E"
@@ -100,6 +123,13 @@ def handle (line : String) : String :=
     match decStr s with
     | some s => encStr (pyStrip s)
     | none => "bad-op"
+  | ["lookup", reg, cat, name, col] =>
+    match decReg reg, decOptStr cat, decStr name, decNat col with
+    | some reg, some cat, some name, some col =>
+      let r := lookupTag reg cat name
+      let sp := errorSpan cat name col r
+      encLookup r ++ " @" ++ toString sp.1 ++ "+" ++ toString sp.2
+    | _, _, _, _ => "bad-op"
   | _ => "bad-op"
 
 partial def loop (h : IO.FS.Stream) (out : IO.FS.Stream) : IO Unit := do
